@@ -15,7 +15,7 @@ pub open spec fn pre<A: RequestBound + ?Sized, B: RequestBound>(tua: &A, hp: Seq
 }
 /// C06 for fully-preemptive FP: blocking 0, remaining cost 0
 pub open spec fn spec_result<A: RequestBound + ?Sized, B: RequestBound>(tua: &A, hp: Seq<B>, limit: int) -> Option<int> {
-    fpx_spec(rbf_fn(tua), hp_fn(hp), 0, 0, limit)
+    fp_spec(rbf_fn(tua), hp_fn(hp), limit)
 }
 
 //@item src/fixed_priority/fully_preemptive.rs :: fn dedicated_uniproc_rta
@@ -48,7 +48,7 @@ where
     let L = fixed_point::search(&proc, limit, |L/*+*/: Duration/*-*/| /*+*/-> (r: Service)
         requires 1 <= L.v() <= limit.v(), pre(tua, interfering_tasks@, limit.v())
         ensures r.v() == w_bw(rbf_fn(tua), hp_fn(interfering_tasks@), 0)(L.v())
-    /*-*/{
+    /*-*/{ /*@probe*/
 //@+
         proof {
             tua.rbf_props();
@@ -75,13 +75,13 @@ where
         requires A.v() < L.v() <= limit.v(), is_step(rbf_fn(tua), A.v()), pre(tua, interfering_tasks@, limit.v()),
                  dscan(w_bw(rbf_fn(tua), hp_fn(interfering_tasks@), 0), limit.v()) == Some(L.v())
         ensures res_view(r) == f_off(rbf_fn(tua), hp_fn(interfering_tasks@), 0, 0, limit.v(), A.v())
-    /*-*/{
+    /*-*/{ /*@probe*/
         // Define the RHS of the equation in theorem 31 of the aRTA paper,
         // where AF = A + F.
         let rhs = |AF: Duration| /*+*/-> (r: Service)
             requires 1 <= AF.v() <= limit.v(), A.v() < limit.v(), pre(tua, interfering_tasks@, limit.v())
             ensures r.v() == w_off(rbf_fn(tua), hp_fn(interfering_tasks@), 0, 0, A.v())(AF.v())
-        /*-*/{
+        /*-*/{ /*@probe*/
 //@+
             proof { tua.rbf_props(); lemma_sum_rbf_mono(interfering_tasks@, limit.v(), limit.v()); assert(tua.rbf(A.v() + 1) <= tua.rbf(limit.v() + 1)); assert(tua.rb_ok(A.v() + 1)); }
 //@-
